@@ -71,7 +71,33 @@ pub fn injected_error(kind: u8, what: &str, path: &Path) -> notify::Error {
 		6 => notify::Error::new(notify::ErrorKind::MaxFilesWatch),
 		_ => notify::Error::io(std::io::Error::from_raw_os_error(libc::EACCES)),
 	};
-	e.add_path(path.to_path_buf())
+	let mut e = e;
+	for p in injected_paths(kind, path) {
+		e = e.add_path(p);
+	}
+	e
+}
+
+/// The paths an injected failure names (bits 3-4 of the kind): the path of the call, none at all (the
+/// production code then names the configured path itself), one entry below it (a recursive registration
+/// that fails on a sub-directory), or two entries below it.
+pub fn injected_paths(kind: u8, path: &Path) -> Vec<PathBuf> {
+	match kind / 8 % 4 {
+		0 => vec![path.to_path_buf()],
+		1 => vec![],
+		2 => vec![path.join("sub")],
+		_ => vec![path.join("sub-a"), path.join("sub-b")],
+	}
+}
+
+/// The paths the runtime errors of one failed call must name, one error each.
+pub fn reported_paths(kind: u8, path: &Path) -> Vec<PathBuf> {
+	let v = injected_paths(kind, path);
+	if v.is_empty() {
+		vec![path.to_path_buf()]
+	} else {
+		v
+	}
 }
 
 struct Mock {
